@@ -100,8 +100,60 @@ func ruleC01Unwrap(p *Program, r *Run) {
 		writesNode[fd] = res
 		return res
 	}
+	// a writer that is only ever handed nodes known not to be a ParenExpr (the shared "( expr )" tail of two writers
+	// that have already unwrapped): what reaches it is decided at its call sites
+	onlyUnwrapped := map[*ast.FuncDecl]bool{}
+	{
+		calls := map[*types.Func]map[*ast.CallExpr]bool{}
+		bad := map[*types.Func]bool{}
+		for _, o := range g.occs {
+			if o.Ev.Kind != "HOLE" || o.Ev.Callee == nil {
+				continue
+			}
+			if calls[o.Ev.Callee] == nil {
+				calls[o.Ev.Callee] = map[*ast.CallExpr]bool{}
+			}
+			calls[o.Ev.Callee][o.Ev.Call] = true
+			if o.ArgKinds == nil || hasStr(o.ArgKinds, "*parser.ParenExpr") {
+				bad[o.Ev.Callee] = true
+			}
+		}
+		for f, cs := range calls {
+			decl := g.fnDecl[f]
+			if decl == nil || bad[f] || f.Exported() {
+				continue
+			}
+			// every call of the function in the module is one of those
+			n := 0
+			for _, pkg := range p.All {
+				for _, file := range pkg.Syntax {
+					ast.Inspect(file, func(x ast.Node) bool {
+						switch v := x.(type) {
+						case *ast.CallExpr:
+							if Callee(pkg.TypesInfo, v) == f {
+								n++
+							}
+						case *ast.Ident:
+							if pkg.TypesInfo.Uses[v] == types.Object(f) {
+								if call, isCall := p.Parent(v).(*ast.CallExpr); !isCall || call.Fun != ast.Expr(v) {
+									n += 1000 // used as a value
+								}
+							}
+						}
+						return true
+					})
+				}
+			}
+			if n == len(cs) {
+				onlyUnwrapped[decl] = true
+			}
+		}
+	}
 	for _, o := range g.occs {
 		if !nodeWriter(o.Ev.Func) {
+			continue
+		}
+		if onlyUnwrapped[o.Ev.Func] {
 			continue
 		}
 		ww := writers[o.Ev.FnName]
